@@ -689,7 +689,7 @@ def stack_points(checkers=("none",), ops=None, pops=("A", "B", "notfound", "erro
     """All worlds of Stack.tla: writer kind x 0-2 read-only levels (plain/sharded) x content per level x operation x judge x populate x checker."""
     ops = ops or ["get", "touch", "ensure", "gou", "set", "put", "set_tf", "put_tf"]
     for writer in ("none", "plain", "sharded"):
-        for nr in (0, 1, 2):
+        for nr in ((0, 1, 2, 3) if writer == "none" else (0, 1, 2)):      # stacks of 1-3 levels, write side optional
             for rkinds in itertools.product(("plain", "sharded"), repeat=nr):
                 for w in (("none",) if writer == "none" else ("none", "A", "B")):
                     for rs in itertools.product(("none", "A", "B"), repeat=nr):
@@ -711,6 +711,9 @@ def stack_job(jid, pt, idx, umask=None, ro_only=False):
 
     def plant(rootdir, kind, val, tag, secondary):
         d = rootdir if kind == "plain" else "%s/.kismet_%04x" % (rootdir, 1 if secondary else 0)
+        if kind != "plain":
+            # a populated sharded directory has its other shard directories too
+            world.append(op("mkdir", path="@TOP@/%s/.kismet_%04x" % (rootdir, 0 if secondary else 1)))
         return op("mkfile", path="@TOP@/%s/%s" % (d, key), key=key, val=val, chunks=1, w=tag, mode=0o444, mt_ago=500.0, at_ago=620.0)
     wcache = None
     roots = []
@@ -1005,6 +1008,101 @@ def check_C10(work):
     return finish("C10", out, t0, "model_checking", cov, BASE_ASSUME + ["the scripted-draw hook (cfg kismet_verif) replaces only the random source"])
 
 
+def c12_vectors(rng, thorough):
+    M = (1 << 64) - 1
+    inv_pm = pow(PM, -1, 1 << 64)
+    inv_sm = pow(SM, -1, 1 << 64)
+    ns = list(range(0, 71)) + [128, 255, 256, 257, 4096, 65537]
+    if not thorough:
+        ns = [0, 1, 2, 3, 4, 5, 7, 8, 15, 16, 17, 31, 33, 64, 70, 255, 256, 257, 4096, 65537]
+    base = [0, 1, 1 << 63, M, 2, M - 1]
+    vecs = []
+    for n in ns:
+        n2 = max(2, n)
+        hs = list(base)
+        # hashes whose mixed value lands exactly on / next to a shard boundary: mix(h) = ceil(j * 2^64 / n2) (+-1)
+        for j in sorted(set([1, n2 // 2, n2 - 1])):
+            b = -((-j << 64) // n2)
+            for d in (-1, 0, 1):
+                target = (b + d) & M
+                hs.append(((target - PA) * inv_pm) & M)
+        pairs = []
+        for h in hs[: (len(hs) if thorough else 9)]:
+            pairs.append((h, rng.getrandbits(64)))
+        # equal primary / secondary image (the fix-up branch), including the wrap-around at the last shard
+        for want in (0, n2 - 1, rng.randrange(n2)):
+            for _ in range(200):
+                h, s2 = rng.getrandbits(64), rng.getrandbits(64)
+                a = (n2 * ((h * PM + PA) & M)) >> 64
+                b = (n2 * ((s2 * SM + SA) & M)) >> 64
+                if a == want:
+                    # choose s with the same image: solve for a mixed value inside shard `want`
+                    lo = -((-want << 64) // n2)
+                    s2 = ((lo + rng.randrange(1, 1000) - SA) * inv_sm) & M
+                    if (n2 * ((s2 * SM + SA) & M)) >> 64 == want:
+                        pairs.append((h, s2))
+                        break
+        for _ in range(4 if not thorough else 12):
+            pairs.append((rng.getrandbits(64), rng.getrandbits(64)))
+        for (h, s2) in pairs:
+            vecs.append((h, s2, n))
+    return vecs
+
+
+def check_C12(work):
+    t0 = time.time()
+    out = Outcome("C12")
+    if subprocess.run([sys.executable, os.path.join(VERIF, "driver", "shardconst.py")], stdout=subprocess.DEVNULL).returncode != 0:
+        raise ToolError("ShardMap.tla's constants disagree with SHA-256 of the mixer strings")
+    rng = random.Random(seed())
+    vecs = c12_vectors(rng, TIER == "thorough")
+    byn = {}
+    for v in vecs:
+        byn.setdefault(v[2], []).append(v)
+    jobs = []
+    per = 12
+    jid = 0
+    for n, vs in sorted(byn.items()):
+        for i in range(0, len(vs), per):
+            grp = vs[i:i + per]
+            root_ = "W%d" % n
+            cache = sharded(root_, n, 1000000)
+            prog = []
+            for k, (h, s2, _) in enumerate(grp):
+                key = "key%d" % (i + k)
+                extra = dict(hash=str(h), sec=str(s2), hl=list(h.to_bytes(8, "little")), sl=list(s2.to_bytes(8, "little")), n=n, root=root_)
+                prog.append(dict(op("get", key), cache=cache, expect="miss", **extra))
+                prog.append(dict(op("put", key, "v"), cache=cache, expect="stored", **extra))
+                prog.append(dict(op("get", key), cache=cache, expect="hit", **extra))      # a fresh handle (all estimates zero)
+                prog.append(dict(op("get", key), h=0, expect="hit", **extra))               # a long-lived handle whose estimates have diverged
+                prog.append(dict(op("put", "other%d" % (i + k), "w", hash=str(rng.getrandbits(64)), sec=str(rng.getrandbits(64))), h=0))
+            jid += 1
+            j = seq_job("C12-%d-%d" % (n, i), "n=%d" % n, cache, prog, roots=[root(root_, "sharded", "w")])
+            j["snap"] = "none"
+            jobs.append(j)
+    tfiles = run_tracer(work, jobs, tag="c12")
+    res = validate_traces(work, "TraceShard", tfiles, {"monitors": []}, tag="c12")
+    judged = 0
+    byjob = {j["id"]: j for j in jobs}
+    for r in res:
+        for v in r["verdicts"]:
+            judged += v.get("ops", 0)
+            if v.get("viol"):
+                mons = sorted(set(m for _, m in v["viol"]))
+                out.report("%s@%s" % (mons[0], byjob.get(v["job"], {}).get("fam")), dict(property="C12", job=byjob.get(v["job"]), viol=v["viol"]))
+    design = design_runs(work, out, ["MCshardmap"])
+    nruns, nev = count_runs(tfiles)
+    cov = dict(states=sum(d["states"] for d in design) + sum(r["states"] for r in res), transitions=sum(d["transitions"] for d in design) + nev,
+               traces_validated_against_impl=nruns,
+               samples=[dict(hash=str(vecs[i][0]), sec=str(vecs[i][1]), n=vecs[i][2]) for i in (0, len(vecs) // 2, len(vecs) - 1)],
+               rule="hash pairs {0, 1, 2^63, 2^64-1, values whose mixed image is on / next to a shard boundary, pairs with equal primary and secondary image "
+                    "(incl. wrap-around), seeded random} x shard counts; per vector: probe order of a lookup on an empty directory, landing shard of a put by a fresh "
+                    "handle, read-back by a fresh handle and by a handle with diverged load estimates; judged by ShardMap!Ids / DirName (limb arithmetic in TLC)",
+               vectors=len(vecs), operations_judged=judged, exhaustive=True,
+               design_level=[dict(cfg=d["cfg"], states=d["states"], transitions=d["transitions"], ok=d["ok"], wall_s=round(d["wall"], 1)) for d in design])
+    return finish("C12", out, t0, "model_checking", cov, BASE_ASSUME + ["SHA-256 -> constants derivation is checked with Python hashlib, not in TLA+"])
+
+
 def check_C06(work):
     t0 = time.time()
     out = Outcome("C06")
@@ -1034,6 +1132,6 @@ def check_C06(work):
     return finish("C06", out, t0, "model_checking", cov, BASE_ASSUME)
 
 
-CHECKS = {"C01": check_C01, "C02": check_C02, "C03": check_C03, "C06": check_C06, "C08": check_C08, "C10": check_C10, "C13": check_C13, "C14": check_C14, "C15": check_C15, "C19": check_C19, "C05": check_C05, "C07": check_C07, "C16": check_C16, "C17": check_C17, "C18": check_C18}
+CHECKS = {"C01": check_C01, "C02": check_C02, "C03": check_C03, "C06": check_C06, "C08": check_C08, "C10": check_C10, "C12": check_C12, "C13": check_C13, "C14": check_C14, "C15": check_C15, "C19": check_C19, "C05": check_C05, "C07": check_C07, "C16": check_C16, "C17": check_C17, "C18": check_C18}
 
 NOT_APPLICABLE = {}
